@@ -1,8 +1,10 @@
 (* C15 -- the recursion depth of bbox_of_composite equals the nesting depth of the
    composite: it is not bounded by any constant, only by the number of glyphs.  (Every
    other walk keeps its work list on the heap.)  This is the model-side statement of the
-   second defect the harness demonstrates: an ACYCLIC chain g1 -> g0, g2 -> g1, ... of
-   some 1400 glyphs overflows the 2 MiB worker stack of the real (debug) binary. *)
+   second defect the harness demonstrated: an ACYCLIC chain g1 -> g0, g2 -> g1, ... of
+   some 1400 glyphs overflowed the 2 MiB worker stack of the real (debug) binary.
+   `bbox_rec` is the code BEFORE work/patches/c15-bbox-iterative.diff; the repaired code is
+   Model.bbox (work list on the heap), see Walks.v. *)
 From Coq Require Import List Arith ZArith Bool Lia.
 From FV.C15 Require Import Model Basics Walks.
 Import ListNotations.
@@ -44,14 +46,14 @@ Lemma succs_chain n v : S v <= n -> succs (chain_store n) (S v) = [v].
 Proof. intros H. unfold succs. rewrite chain_get by auto. reflexivity. Qed.
 
 Lemma bbox_chain_step n d v : S v <= n ->
-  bbox (S d) (chain_store n) (S v) =
+  bbox_rec (S d) (chain_store n) (S v) =
   match v with
   | O => Some tt
-  | S _ => match bbox d (chain_store n) v with None => None | Some _ => Some tt end
+  | S _ => match bbox_rec d (chain_store n) v with None => None | Some _ => Some tt end
   end.
 Proof.
-  intros H. change (bbox (S d) (chain_store n) (S v)) with
-    (all_some (fun c => if is_composite (get (chain_store n) c) then bbox d (chain_store n) c else Some tt)
+  intros H. change (bbox_rec (S d) (chain_store n) (S v)) with
+    (all_some (fun c => if is_composite (get (chain_store n) c) then bbox_rec d (chain_store n) c else Some tt)
               (succs (chain_store n) (S v))).
   rewrite succs_chain by auto. cbn [all_some]. rewrite chain_get by lia.
   destruct v; reflexivity.
@@ -59,7 +61,7 @@ Qed.
 
 (* computing the box of glyph v needs recursion depth exactly v: one frame per nesting level *)
 Theorem bbox_chain_depth n : forall v, 1 <= v -> v <= n ->
-  (forall d, d < v -> bbox d (chain_store n) v = None) /\ bbox v (chain_store n) v = Some tt.
+  (forall d, d < v -> bbox_rec d (chain_store n) v = None) /\ bbox_rec v (chain_store n) v = Some tt.
 Proof.
   induction v as [|v IH]; intros H1 Hn; [lia|].
   destruct v as [|v].
@@ -74,7 +76,7 @@ Qed.
 
 (* no fixed recursion depth suffices for all acyclic inputs *)
 Theorem bbox_depth_unbounded : forall depth, exists G v,
-  closed G /\ acyclic G /\ bbox depth G v = None /\ exists depth', bbox depth' G v = Some tt.
+  closed G /\ acyclic G /\ bbox_rec depth G v = None /\ exists depth', bbox_rec depth' G v = Some tt.
 Proof.
   intros depth. exists (chain_store (S depth)), (S depth).
   split; [apply chain_closed | split; [apply chain_acyclic|]].
